@@ -1,6 +1,8 @@
 import Model.Wire
 import Gen.C12
 import Proofs.WireTyped
+import Proofs.WireCanon
+import Proofs.WireBatch
 
 /-! # C12 — property theorems (wire encodings round-trip, hashes stable, decoders total) -/
 namespace Spec.C12
@@ -85,6 +87,8 @@ example : Version.decode (Version.encode { block := 2 ^ 64 - 1, app := 0 }) = so
 
 theorem metadata_roundtrip (m : Metadata) (h : m.WF) : Metadata.decode m.encode = some m :=
   Metadata.decode_encode h
+example : ({ chainId := "c-é", height := 2 ^ 64 - 1, time := 0, lastDataHash := [0] } : Metadata).WF := by
+  decide +kernel
 
 theorem header_roundtrip (h : Header) (hw : h.WF) : Header.decode h.encode = some h :=
   Header.decode_encode hw
@@ -95,6 +99,20 @@ theorem data_roundtrip (d : Data) (hw : d.WF) : Data.decode d.encode = some d :=
   Data.decode_encode hw
 example : gData.WF := by decide +kernel
 example : ({ metadata := some {}, txs := [[], []] } : Data).WF := by decide +kernel   -- empty metadata ≠ nil metadata
+
+/-- consequence: on in-range values the encodings are injective, so two different headers / data
+have different hash *inputs* (hash equality is then a SHA-256 collision) -/
+theorem header_encode_injective (h h' : Header) (hw : h.WF) (hw' : h'.WF) (e : h.encode = h'.encode) : h = h' := by
+  have a := header_roundtrip h hw
+  rw [e, header_roundtrip h' hw'] at a
+  exact (Option.some.inj a).symm
+
+theorem data_encode_injective (d d' : Data) (hw : d.WF) (hw' : d'.WF) (e : d.encode = d'.encode) : d = d' := by
+  have a := data_roundtrip d hw
+  rw [e, data_roundtrip d' hw'] at a
+  exact (Option.some.inj a).symm
+-- nil metadata and empty metadata are different values with different bytes (and both round-trip)
+example : ({ metadata := some {} } : Data).encode ≠ ({} : Data).encode := by decide +kernel
 
 /-- full statement for signed headers: **false** of the current code -/
 def C12_full_signed_header_roundtrip : Prop :=
@@ -115,6 +133,15 @@ theorem signed_header_roundtrip_partial (keyOk : Bytes → Bool) (sh : SignedHea
     (hk : sh.signer.pubKey ≠ [] → keyOk sh.signer.pubKey = true) :
     SignedHeader.decode keyOk sh.encode = some sh.canon' := SignedHeader.decode_encode keyOk hw hk
 example : gSignedHeader.WF ∧ gSignedHeader.signer.pubKey ≠ [] := by decide +kernel
+
+/-- the nested-length clauses of `SignedHeader.WF` are implied by sizes a Go process can hold:
+`uint64` scalars and byte strings that together are shorter than `2^63` -/
+theorem signed_header_roundtrip_of_sizes (keyOk : Bytes → Bool) (sh : SignedHeader) (hv : sh.header.version.WF)
+    (hh : sh.header.height < 2 ^ 64) (ht : sh.header.time < 2 ^ 64)
+    (hs : sh.header.payload + sh.signature.length + sh.signer.address.length + sh.signer.pubKey.length < 2 ^ 63)
+    (hk : sh.signer.pubKey ≠ [] → keyOk sh.signer.pubKey = true) :
+    SignedHeader.decode keyOk sh.encode = some sh.canon' :=
+  signed_header_roundtrip_partial keyOk sh (SignedHeader.wf_of_sizes hv hh ht hs) hk
 
 /-- with a key (every header a node signs or accepts) nothing is lost -/
 theorem signed_header_roundtrip_with_key (keyOk : Bytes → Bool) (sh : SignedHeader) (hw : sh.WF)
@@ -204,5 +231,104 @@ theorem signed_data_payload_preserved (keyOk : Bytes → Bool) (sd : SignedData)
         verify sd.signer.pubKey sd.data.encode sd.signature :=
   ⟨sd.canon', signed_data_roundtrip_partial keyOk sd hw hk, rfl, rfl, rfl, rfl, rfl,
     Signer.canon_pubKey _, fun verify => by simp [SignedData.canon', Signer.canon_pubKey]⟩
+
+/-! ## 5. Arbitrary bytes: decoders are total, accepted values are canonical
+
+The decoders are total Lean functions (structural recursion with fuel; Lean accepts no partial
+definition here), so "fails cleanly or returns a value" holds by construction: the result is
+`none` or `some v`.  For protobuf-go itself "never panics" is explored by the recover-guarded
+malformed-bytes stream of the check, not proved.  What is proved: every value a decoder returns
+is in range (`WF`) and is a fixed point of decode ∘ encode.  `Version`, `Metadata`, `Header` need
+no hypothesis; messages with nested message payloads (`Data`, `SignedHeader`, `SignedData`) need
+the input to be a Go slice (`len < 2^63`), so that the re-encoded inner message is again a legal
+`len` payload. -/
+
+theorem version_decode_total_canonical (bs : Bytes) :
+    Version.decode bs = none ∨ ∃ v, Version.decode bs = some v ∧ v.WF ∧ Version.decode v.encode = some v := by
+  cases h : Version.decode bs with
+  | none => exact .inl rfl
+  | some v => exact .inr ⟨v, rfl, Version.decode_wf h, Version.decode_canon h⟩
+-- padded varint, repeated field (last wins), unknown field 15: accepted and normalised
+example : Version.decode [0x08, 0x81, 0x00, 0x08, 0x05, 0x78, 0x01] = some { block := 5 } ∧
+    Version.encode { block := 5 } = [0x08, 0x05] := by decide
+
+theorem metadata_decode_total_canonical (bs : Bytes) :
+    Metadata.decode bs = none ∨ ∃ m, Metadata.decode bs = some m ∧ m.WF ∧ Metadata.decode m.encode = some m := by
+  cases h : Metadata.decode bs with
+  | none => exact .inl rfl
+  | some m => exact .inr ⟨m, rfl, Metadata.decode_wf h, Metadata.decode_canon h⟩
+example : Metadata.decode [0x18, 0x07, 0x10, 0x81, 0x00, 0x0a, 0x01, 0x61, 0x78, 0x01] =
+    some { chainId := "a", height := 1, time := 7 } := by decide +kernel
+example : Metadata.decode [0x0a, 0x01, 0xff] = none := by decide +kernel       -- invalid UTF-8
+example : Metadata.decode [0x10] = none := by decide                            -- truncated
+
+theorem header_decode_total_canonical (bs : Bytes) :
+    Header.decode bs = none ∨ ∃ h, Header.decode bs = some h ∧ h.WF ∧ Header.decode h.encode = some h ∧
+      (Header.decode h.encode).map Header.hash = some h.hash := by
+  cases h : Header.decode bs with
+  | none => exact .inl rfl
+  | some hd =>
+    exact .inr ⟨hd, rfl, Header.decode_wf h, Header.decode_canon h, by rw [Header.decode_canon h]; rfl⟩
+-- two version sub-messages are merged, fields out of order:
+example : Header.decode [0x10, 0x07, 0x0a, 0x02, 0x08, 0x01, 0x0a, 0x02, 0x10, 0x02] =
+    some { version := { block := 1, app := 2 }, height := 7 } := by decide +kernel
+
+theorem data_decode_total_canonical (bs : Bytes) (hb : bs.length < 2 ^ 63) :
+    Data.decode bs = none ∨ ∃ d, Data.decode bs = some d ∧ d.WF ∧ Data.decode d.encode = some d := by
+  cases h : Data.decode bs with
+  | none => exact .inl rfl
+  | some d => exact .inr ⟨d, rfl, Data.decode_wf hb h, Data.decode_canon hb h⟩
+-- txs before the metadata; present-but-empty metadata stays present:
+example : Data.decode [0x12, 0x01, 0x09, 0x0a, 0x00, 0x12, 0x00] = some { metadata := some {}, txs := [[9], []] } := by
+  decide +kernel
+
+theorem signed_header_decode_total_canonical (keyOk : Bytes → Bool) (bs : Bytes) (hb : bs.length < 2 ^ 63) :
+    SignedHeader.decode keyOk bs = none ∨
+    ∃ sh, SignedHeader.decode keyOk bs = some sh ∧ sh.WF ∧ SignedHeader.decode keyOk sh.encode = some sh := by
+  cases h : SignedHeader.decode keyOk bs with
+  | none => exact .inl rfl
+  | some sh => exact .inr ⟨sh, rfl, (SignedHeader.decode_wf keyOk hb h).1, SignedHeader.decode_canon keyOk hb h⟩
+-- an address-only signer on the wire decodes to the zero signer, which is canonical:
+example : SignedHeader.decode (fun _ => true) [0x0a, 0x00, 0x1a, 0x03, 0x0a, 0x01, 0x07] = some {} := by
+  decide +kernel
+example : SignedHeader.decode (fun _ => true) [0x1a, 0x00] = none := by decide +kernel   -- nil header
+
+theorem signed_data_decode_total_canonical (keyOk : Bytes → Bool) (bs : Bytes) (hb : bs.length < 2 ^ 63) :
+    SignedData.decode keyOk bs = none ∨
+    ∃ sd, SignedData.decode keyOk bs = some sd ∧ sd.WF ∧ SignedData.decode keyOk sd.encode = some sd := by
+  cases h : SignedData.decode keyOk bs with
+  | none => exact .inl rfl
+  | some sd => exact .inr ⟨sd, rfl, (SignedData.decode_wf keyOk hb h).1, SignedData.decode_canon keyOk hb h⟩
+example : SignedData.decode (fun _ => true) [0x12, 0x01, 0x05, 0x1a, 0x04, 0x12, 0x02, 0x01, 0x02] =
+    some { signature := [5], signer := { pubKey := [1, 2] } } := by decide +kernel
+
+/-! ## 6. Batch-cursor list codec (`block/manager.go` `convertBatchDataToBytes` / `bytesToBatchData`) -/
+
+/-- round trip for every list whose entries fit the 32-bit length prefix -/
+theorem batch_roundtrip (bd : List Bytes) (h : ∀ d ∈ bd, d.length < 2 ^ 32) :
+    Producer.bytesToBatchData (Producer.batchDataToBytes bd) = some bd := Producer.bytesToBatchData_enc bd h
+example : Producer.bytesToBatchData (Producer.batchDataToBytes [[1, 2], [], [3]]) = some [[1, 2], [], [3]] :=
+  batch_roundtrip _ (by decide)
+
+/-- the decoder is total; what it accepts is *exactly* the encoding of what it returns (the format
+has no redundancy), so it re-encodes to the same bytes and decodes to itself -/
+theorem batch_decode_total_canonical (bs : Bytes) :
+    Producer.bytesToBatchData bs = none ∨
+    ∃ l, Producer.bytesToBatchData bs = some l ∧ Producer.batchDataToBytes l = bs ∧
+      Producer.bytesToBatchData (Producer.batchDataToBytes l) = some l := by
+  cases h : Producer.bytesToBatchData bs with
+  | none => exact .inl rfl
+  | some l =>
+    have ⟨h1, h2⟩ := Producer.bytesToBatchData_dec h
+    exact .inr ⟨l, rfl, h1, Producer.bytesToBatchData_enc l h2⟩
+example : Producer.bytesToBatchData [1, 0, 0] = none ∧ Producer.bytesToBatchData [2, 0, 0, 0, 9] = none ∧
+    Producer.bytesToBatchData [1, 0, 0, 0, 9, 0, 0, 0, 0] = some [[9], []] := by decide
+
+theorem golden_batch_bytes :
+    Producer.batchDataToBytes [Bytes.ofString "ab", [], Bytes.ofString "cde"] = Gen.C12.batchDataBytes := by
+  decide +kernel
+theorem golden_batch_decode :
+    Producer.bytesToBatchData Gen.C12.batchDataBytes = some [Bytes.ofString "ab", [], Bytes.ofString "cde"] := by
+  decide +kernel
 
 end Spec.C12
